@@ -441,6 +441,11 @@ func (rw *Rewriter) r9(p *Node) string {
 			if n.K != KFunc || n.Has(FSynthetic) {
 				return false
 			}
+			if role == RNamed && (n.S == "" || n.Has(FArrow)) {
+				// NamedEvaluation would name the anonymous function after the target; the value of eval(...) is not an
+				// anonymous function definition, so its name would stay "" (programs log .name)
+				return false
+			}
 			if AvoidArrowParenBody && n.Has(FExprBody) {
 				return false // known finding: toString() of `() => (e)` loses the closing parenthesis
 			}
@@ -855,4 +860,63 @@ func (rw *Rewriter) r12(p *Node) string {
 		return fmt.Sprintf("param%d of %d call(s)", i, len(s.calls))
 	}
 	return ""
+}
+
+// ---- R13: static closure <-> closure created by direct eval of its text
+
+// usesSuper: super.x / super() outside nested non-arrow functions (eval code may contain them only inside methods).
+func usesSuper(n *Node) bool {
+	if n == nil {
+		return false
+	}
+	switch n.K {
+	case KSuperCall, KSuperDot:
+		return true
+	case KFunc:
+		if !n.Has(FArrow) {
+			return false
+		}
+	}
+	for _, ch := range n.Children() {
+		if usesSuper(ch) {
+			return true
+		}
+	}
+	return false
+}
+
+// r13 replaces a function expression / arrow F by eval("(F)"): the text is evaluated by a direct eval in the same lexical
+// environment (identifier resolution passes through the eval's empty declarative environment), strictness, this and
+// arguments are inherited, so the closure is the same — but no binding it uses is captured *statically* any more.
+func (rw *Rewriter) r13(p *Node) string {
+	sites := collectExprs(p, func(n *Node, role Role, c Ctx) bool {
+		if n.K != KFunc || n.Has(FSynthetic) {
+			return false
+		}
+		if role == RNamed && (n.S == "" || n.Has(FArrow)) {
+			return false // the name given by the syntactic position would be lost
+		}
+		if usesSuper(&Node{K: KBlock, L: append(append([]*Node(nil), n.L...), n.M...)}) {
+			return false
+		}
+		return true
+	})
+	if len(sites) == 0 {
+		return ""
+	}
+	desc := ""
+	for k, n := 0, 1+rw.R.Intn(2); k < n; k++ {
+		s := sites[rw.R.Intn(len(sites))]
+		f := s.get()
+		if f.K != KFunc || f.Has(FSynthetic) {
+			continue
+		}
+		s.set(mark(&Node{K: KEval, L: []*Node{ExprStmt(f)}}))
+		if f.Has(FArrow) {
+			desc += "arrow "
+		} else {
+			desc += "function "
+		}
+	}
+	return desc
 }
